@@ -82,7 +82,12 @@ def run_one(m: dict, tier: str) -> dict:
             else:
                 res.setdefault("quiet_ok", []).append(prop)
         for prop in m["expect"]:
-            r = subprocess.run([str(VERIF / "check"), prop, tier], env=env, capture_output=True, text=True)
+            try:
+                r = subprocess.run([str(VERIF / "check"), prop, tier], env=env, capture_output=True, text=True,
+                                   timeout=2700)
+            except subprocess.TimeoutExpired:
+                res["errors"].append(f"{prop}: did not finish within 45 minutes")
+                continue
             if r.returncode == 1 and "VIOLATION property=" + prop in r.stdout:
                 res["caught"].append(prop)
             elif r.returncode == 0:
